@@ -146,6 +146,10 @@ func C01Configs(thorough bool) []*world.Config {
 	}
 	add(world.IntCfg(2, []int{-4, -2, -1, 0, 1, 2, 4}, []interface{}{"a"}, "", B, "none"))
 	add(world.IntCfg(2, []int{-2, 0, 1, 2, 4}, []interface{}{[]int{1}, []int{2, 3}}, []int{}, B, "none"))
+	// values and keys with indirection (slices) in both formats: decode targets must not be shared between entries
+	add(world.IntCfg(2, []int{-2, 0, 1, 2, 4}, []interface{}{[]int{1}, []int{2, 3}}, []int{}, M, "none"))
+	add(world.IntCfg(4, []int{1, 2, 3, 5, 8}, []interface{}{world.TVal{Tags: []string{"x"}}, world.TVal{Tags: []string{"y", "z"}, M: map[string]int{"q": 1}}}, world.TVal{}, M, "none"))
+	add(world.BytesCfg(4, []uint8{0, 1, 0, 0, 1}, M, "none"))
 	nv := world.IntCfg(2, []int{1, 2, 3, 4, 8}, []interface{}{nil}, nil, B, "none")
 	nv.RegisteredTypes = true
 	add(nv)
